@@ -42,6 +42,10 @@ def chunking(r, size, kind):
         return [b""] if kind == "one" else []
     if kind == "one":
         sizes = [size]
+    elif kind == "one+empty":
+        sizes = [size, 0]           # e.g. a file wrapper that yields b"" at EOF
+    elif kind == "empty+halves+empty":
+        sizes = [0, size // 2, 0, size - size // 2, 0]
     elif kind == "1000":
         sizes = [1000] * (size // 1000) + ([size % 1000] if size % 1000 else [])
     elif kind == "70000":
@@ -354,6 +358,12 @@ def plan(tier, seed):
                        "policy": pol, "n": n, "seed": r.randrange(1 << 30), "iws_change": chg})
         if mfs > 16384 and size >= 65536 and iws >= 65535 and chg is None and r.random() < 0.5 and pol != "dep":
             params[-1]["mfs_change"] = r.choice([16384, 16384, 20000])
+    # zero-length chunks at the moment the window is shut for good: the body fills the window exactly and the server,
+    # which has all it was promised, sends no credit at all - an empty chunk needs none
+    for iws, size in ((65535, 65535), (16384, 16384), (100, 100), (1_000_000, 65535)):
+        for kind in ("one+empty", "empty+halves+empty"):
+            params.append({"dir": "up", "size": size, "chunking": kind, "iws": iws, "mfs": 16384, "policy": "none", "n": 1,
+                           "seed": r.randrange(1 << 30), "iws_change": None})
     downs = [0, 1, 65535, 1_000_000, 17 * 2 ** 20] + ([40 * 2 ** 20] if tier != "quick" else [])
     for size in downs:
         for dc in ([16384] if size > 2 ** 20 else [1, 16384] if size <= 65535 else [16384, 4000]):
